@@ -308,6 +308,34 @@ func rootRef(a *Addr) Term {
 
 func pow2(n uint) *big.Int { return new(big.Int).Lsh(big.NewInt(1), n) }
 
+func isMask(c *big.Int) bool {
+	m := new(big.Int).Add(c, big.NewInt(1))
+	return new(big.Int).And(m, c).Sign() == 0
+}
+
+// bitsOf is x & c for a non-negative constant c, as linear arithmetic:
+// the sum over the set bits k of c of 2^k * ((x div 2^k) mod 2).
+func bitsOf(x Term, c *big.Int) Term {
+	var parts []Term
+	for k := 0; k < c.BitLen(); k++ {
+		if c.Bit(k) == 0 {
+			continue
+		}
+		bit := app(SInt, "mod", app(SInt, "div", x, bigLit(pow2(uint(k)))), intLit(2))
+		if k == 0 {
+			bit = app(SInt, "mod", x, intLit(2))
+		}
+		parts = append(parts, app(SInt, "*", bigLit(pow2(uint(k))), bit))
+	}
+	switch len(parts) {
+	case 0:
+		return intLit(0)
+	case 1:
+		return parts[0]
+	}
+	return app(SInt, "+", parts...)
+}
+
 func constInt(v ssa.Value) (*big.Int, bool) {
 	c, ok := v.(*ssa.Const)
 	if !ok || c.Value == nil {
@@ -378,8 +406,32 @@ func (ex *Exec) binop(fr *Frame, in *ssa.BinOp, pc Term) Term {
 	unsigned := lo != nil && lo.Sign() == 0
 	cy, yConst := constInt(in.Y)
 	cx, xConst := constInt(in.X)
-	_ = cx
-	_ = xConst
+	switch in.Op {
+	case token.AND, token.OR, token.XOR, token.AND_NOT:
+		// one constant operand: exact, bit by bit of the constant (floor div/mod give the
+		// two's-complement bits of negative values as well)
+		var cst *big.Int
+		var other Term
+		switch {
+		case yConst && cy.Sign() >= 0 && cy.BitLen() <= 64:
+			cst, other = cy, x
+		case xConst && cx.Sign() >= 0 && cx.BitLen() <= 64 && in.Op != token.AND_NOT:
+			cst, other = cx, y
+		}
+		if cst != nil && !(in.Op == token.AND && unsigned && isMask(cst)) {
+			bits := ex.vc.def("bits", bitsOf(other, cst))
+			switch in.Op {
+			case token.AND:
+				return bits
+			case token.OR:
+				return wrap(app(SInt, "-", app(SInt, "+", other, bigLit(cst)), bits), rt)
+			case token.XOR:
+				return wrap(app(SInt, "-", app(SInt, "+", other, bigLit(cst)), app(SInt, "*", intLit(2), bits)), rt)
+			case token.AND_NOT:
+				return app(SInt, "-", other, bits)
+			}
+		}
+	}
 	switch in.Op {
 	case token.ADD:
 		return wrap1(app(SInt, "+", x, y), rt)
